@@ -2,7 +2,7 @@
    Statements only; proofs in Proofs/Closure.v. *)
 From Coq Require Import Floats Permutation.
 From JM Require Import Model.Base Model.Num Model.Value Model.JsonText Model.Interp Model.Api
-     Spec.Grammar Spec.Semantics Proofs.ValueFacts Proofs.InterpRefine Proofs.Closure
+     Spec.Grammar Spec.Semantics Proofs.ValueFacts Proofs.InterpRefine Proofs.Closure Proofs.JsonRound
      Inst.FloatNum Run.Checker.
 
 Section C16.
@@ -37,12 +37,24 @@ Proof. exact (eval_json ord ord_perm). Qed.
 Theorem C16_serialisable : forall v, is_json v = true -> exists s, json_marshal v = Some s.
 Proof. exact marshal_total. Qed.
 
+(* ... and read back as an equal value: json.Unmarshal (json.Marshal v) = v for all
+   JSON data whose strings and keys are valid UTF-8 (jok; encoding/json replaces
+   invalid bytes, so equality cannot hold beyond that), at every nesting depth up
+   to the decoder's limit, for objects with any number of members.  The number
+   law NumText (the printed form of a finite number is a JSON number token that is
+   read back as that number) is a hypothesis on the number type, like NoOverflow. *)
+Theorem C16_json_round_trip :
+  NumText -> forall v text, json_marshal v = Some text -> jok v -> vdepth v <= max_nesting_depth ->
+    json_unmarshal text = Some v.
+Proof. exact unmarshal_marshal. Qed.
+
 End C16.
 
 Print Assumptions C16_shape.
 Print Assumptions C16_json.
 Print Assumptions C16_eval_json.
 Print Assumptions C16_serialisable.
+Print Assumptions C16_json_round_trip.
 
 (* the proviso is satisfiable: exact integer arithmetic meets it (binary64 meets
    it on the evaluations in which no sum or quotient leaves the finite range) *)
